@@ -204,9 +204,14 @@ def run_property(prop, tier, only_seeds=None, only_ops=None):
             j2.update(atomic=False, composites=True, composite_cap=4 if tier == "quick" else 16, budget_s=j["budget_s"] * 0.6)
             cj0.append(j2)
         jobs = jobs + cj0
-    if prop in ("C05", "C10"):
-        # all selected seeds even in quick (the family is already restricted)
-        pass
+    if prop == "C05" and not os.environ.get("VERIF_NO_TIGHT"):
+        # tight family for replace (corpus/tight_replace.py): exact instances and one-edit near misses
+        import corpus.tight_replace as TR
+
+        for nm, _p, _t in TR.TR_SEEDS:
+            j = dict(jobs[0])
+            j.update(seed_name=nm, extra_corpus="tight_replace", cap=400)
+            jobs.append(j)
     results = run_jobs(jobs)
     rng = random.Random(vseed)
     if not only_seeds or tier == "thorough":
